@@ -46,12 +46,14 @@ TRUSTED = [
     "SOA rdata = serial + 2^32*variant); wire encoding/decoding of the messages is dnspython's own (C02/C03 territory)",
 ]
 ASSUMPTIONS = [
-    "record types used: A NS SOA MX TXT AAAA RRSIG (no CNAME-like node exclusivity, no singleton types other than SOA)",
+    "record types used: A NS SOA MX TXT AAAA RRSIG DNAME NSEC (no CNAME-like node exclusivity)",
     "no TSIG on the transfer (C14)",
 ]
 
 SOA, AXFR, IXFR = 6, 252, 251
 A, NS, MX, TXT, AAAA, RRSIG = 1, 2, 15, 16, 28, 46
+DNAME, NSEC = 39, 47
+SINGLETONS = (6, 30, 39, 47, 5)      # dns.rdatatype._singletons: adding a record replaces the RRset
 IN, CH = 1, 3
 T32 = 1 << 32
 ORIGIN = dns.name.from_text("example.")
@@ -86,6 +88,10 @@ def rdata_text(t, cv, d):
         return f"ns{d}.example." if d < 16 else f"ns{d}.example.net."
     if t == MX:
         return f"{10 + (d & 0x7FFF)} mail.example."
+    if t == DNAME:
+        return f"target{d}.example."
+    if t == NSEC:
+        return f"next{d}.example. A NS RRSIG"
     if t == TXT:
         return f'"t{d}"'
     if t == RRSIG:
@@ -770,7 +776,7 @@ def body_recs(z):
 
 
 TTLS = [0, 1, 60, 300, 3600, 86400, 2147483647]
-REC_TYPES = [A, A, AAAA, TXT, MX, NS]
+REC_TYPES = [A, A, A, AAAA, AAAA, TXT, TXT, MX, MX, NS, NS, DNAME, NSEC]
 
 
 def gen_key(rng, names):
@@ -791,10 +797,10 @@ def gen_zone(rng, serial, size=None, names=None, ids=8):
     size = rng.choice([0, 1, 2, 4, 8, 14]) if size is None else size
     for _ in range(size):
         k = gen_key(rng, names)
-        if k in z:
+        if k in z and k[1] not in SINGLETONS:
             z[k][1].add(rng.randrange(ids))
         else:
-            z[k] = (rng.choice(TTLS), {rng.randrange(ids)})
+            z[k] = (z[k][0] if k in z else rng.choice(TTLS), {rng.randrange(ids)})
     return z
 
 
@@ -811,10 +817,10 @@ def mutate(rng, z, serial, nops=None, names=None, ids=8):
         keys = [k for k in z if k != SOAKEY and k != (0, NS, 0)]
         if r < 0.35 or not keys:
             k = gen_key(rng, names)
-            if k in z:
+            if k in z and k[1] not in SINGLETONS:
                 z[k][1].add(rng.randrange(ids))
             else:
-                z[k] = (rng.choice(TTLS), {rng.randrange(ids)})
+                z[k] = (z[k][0] if k in z else rng.choice(TTLS), {rng.randrange(ids)})
         elif r < 0.6:
             k = rng.choice(keys)
             ds = z[k][1]
@@ -828,7 +834,7 @@ def mutate(rng, z, serial, nops=None, names=None, ids=8):
             z[k] = (rng.choice(TTLS), z[k][1])
         else:
             k = rng.choice(keys)
-            z[k] = (z[k][0], {rng.randrange(ids) for _ in range(rng.randint(1, 3))})
+            z[k] = (z[k][0], {rng.randrange(ids) for _ in range(1 if k[1] in SINGLETONS else rng.randint(1, 3))})
     v = soa_id(z) >> 32
     if rng.random() < 0.3:
         v = rng.randrange(3)
@@ -999,7 +1005,7 @@ def apply_fault(rng, chunks, rdt, fault, pos):
         elif r[2] == RRSIG:
             return None
         else:
-            r[2] = rng.choice([x for x in [A, TXT, MX, AAAA, SOA] if x != r[2]])
+            r[2] = rng.choice([x for x in [A, TXT, MX, AAAA, SOA, DNAME] if x != r[2]])
     elif fault == "rcode":
         rcodes[i] = rng.choice([1, 2, 5, 9])
         tag = MUSTERR
@@ -1050,7 +1056,7 @@ def reference(z0, rdt, ser, udp, msgs):
             return "soa not at apex"
         k = (r[0], r[2], r[3])
         if k in zone:
-            zone[k] = (min(zone[k][0], clamp(r[4])), zone[k][1] | {r[5]})
+            zone[k] = (min(zone[k][0], clamp(r[4])), {r[5]} if r[2] in SINGLETONS else zone[k][1] | {r[5]})
         else:
             zone[k] = (clamp(r[4]), {r[5]})
         return None
@@ -1298,6 +1304,36 @@ def fault_cases(ctx, rng, n):
         yield "fault:" + fault, mk_case(zk, rel, rdt, ser, 0, z0, msgs, tag, None)
 
 
+def singleton_cases(ctx, rng, n):
+    """several records of a singleton type (DNAME, NSEC) for one owner: each replaces the previous one, in the
+    message parser (records merged into one RRset) and in Transaction.add"""
+    for _ in range(n):
+        zk, rel = zk_rel(rng)
+        chain = gen_chain(rng, 1, size=rng.choice([1, 3]))
+        s0 = soa_id(chain[0]) & 0xFFFFFFFF
+        t = rng.choice([DNAME, NSEC])
+        nm = rng.choice([0, 1, 2, 3])
+        ds = rng.sample(range(8), rng.randint(2, 3))
+        extra = [[nm, IN, t, 0, rng.choice([60, 300, 3600]), d] for d in ds]
+        if rng.random() < 0.5:
+            recs = axfr_stream(rng, chain[-1])
+            rdt, ser = (AXFR, None) if rng.random() < 0.6 else (IXFR, s0)
+            body = recs[1:-1]
+            for e in extra:
+                body.insert(rng.randint(0, len(body)), e)
+            recs = [recs[0]] + body + [recs[-1]]
+        else:
+            recs = ixfr_stream(rng, chain)
+            rdt, ser = IXFR, s0
+            # into the (last) addition section
+            pos = len(recs) - 1
+            for e in extra:
+                recs.insert(pos, e)
+                pos += 1
+        msgs = msgs_of(split(recs, rand_cuts(rng, len(recs))), rdt)
+        yield "singleton", mk_case(zk, rel, rdt, ser, 0, chain[0], msgs, FAULT, None)
+
+
 def malformed_cases(ctx, rng, n):
     """arbitrary record soup: only 'an error leaves the zone untouched' is demanded"""
     for _ in range(n):
@@ -1321,7 +1357,7 @@ def malformed_cases(ctx, rng, n):
                 recs.append([k[0], IN, k[1], k[2], z0[k][0], rng.choice(sorted(z0[k][1]))])
             else:
                 k = gen_key(rng, [0, 1, 2, 3, -1])
-                c = IN if rng.random() < 0.9 or k[1] in (A, AAAA, RRSIG) else CH
+                c = IN if rng.random() < 0.9 or k[1] in (A, AAAA, RRSIG, DNAME, NSEC) else CH
                 ttl = rng.choice(TTLS + [2147483648, 4294967295])
                 t = k[1] if rng.random() < 0.95 or k[1] == RRSIG else SOA
                 recs.append([k[0], c, t, k[2], ttl, rng.randrange(4)])
@@ -1408,7 +1444,7 @@ def feed_cases(ctx, rng, n):
             rrsets = []
             for x in c:
                 merged = False
-                if rng.random() < 0.5 and x[2] != SOA:
+                if rng.random() < 0.5 and x[2] not in SINGLETONS:
                     for rs in rrsets:
                         if rs[:4] == x[:4]:
                             rs[5] = sorted(set(rs[5]) | {x[5]})
@@ -1626,7 +1662,7 @@ def misc_cases(ctx, rng):
             if rng.random() < 0.15:
                 recs.append([rng.choice([0, 0, 1]), IN, SOA, 0, 300, rng.randrange(3)])
             else:
-                c = IN if rng.random() < 0.85 or k[1] in (A, AAAA, RRSIG) else CH
+                c = IN if rng.random() < 0.85 or k[1] in (A, AAAA, RRSIG, DNAME, NSEC) else CH
                 recs.append([k[0], c, k[1], k[2], rng.choice([0, 5, 300, 300, 2147483647, 2147483648, 4294967295]), rng.randrange(3)])
         yield "group", [5, rng.randrange(2), recs]
 
@@ -1638,6 +1674,7 @@ def cases(ctx):
     yield from valid_cases(ctx, rng, ctx.n(400, 4500))
     yield from must_error_cases(ctx, rng, ctx.n(350, 3000))
     yield from fault_cases(ctx, rng, ctx.n(400, 4500))
+    yield from singleton_cases(ctx, rng, ctx.n(80, 800))
     yield from malformed_cases(ctx, rng, ctx.n(300, 4500))
     yield from feed_cases(ctx, rng, ctx.n(200, 2000))
     yield from refresh_cases(ctx, rng, ctx.n(200, 2500))
